@@ -283,7 +283,25 @@ fn run_case(case: &Value) -> Value {
                 let from = op["from"].as_str().unwrap_or("A").to_string();
                 match built.get(&from).cloned() {
                     None => step["res"] = json!({"res": "skipped", "why": "no snapshot built on sender"}),
-                    Some((meta, mut bytes)) => {
+                    Some((bmeta, bbytes)) => {
+                        // The follower receives what the sender's get_current_snapshot() returns at this
+                        // moment (as openraft's replication does), not the value build_snapshot returned
+                        // earlier: it must still be the snapshot that was built.
+                        let fetched = {
+                            let sender = nodes.get_mut(&from).expect("sender");
+                            block_on(async {
+                                let mut sm = sender.sm.clone();
+                                sm.get_current_snapshot().await
+                            })
+                        };
+                        let (meta, mut bytes, sender_matches) = match fetched {
+                            Ok(Some(c)) => {
+                                let b = c.snapshot.get_ref().clone();
+                                let same = c.meta == bmeta && b == bbytes;
+                                (c.meta.clone(), b, same)
+                            }
+                            _ => (bmeta.clone(), bbytes.clone(), false),
+                        };
                         let corrupt = op["corrupt"].as_bool().unwrap_or(false);
                         if corrupt {
                             // damaged in transit: the last byte is missing (never decodes: every
@@ -311,9 +329,11 @@ fn run_case(case: &Value) -> Value {
                         };
                         step["res"] = match r {
                             Ok(()) => json!({"res": "ok", "current_snapshot_matches": cur_ok, "corrupt": corrupt,
+                                             "sender_current_is_built": sender_matches,
                                              "snap_last": log_id_json(&meta.last_log_id)}),
                             Err(e) => json!({"res": "err", "err": e.to_string(), "current_snapshot_matches": cur_ok,
-                                             "corrupt": corrupt, "snap_last": log_id_json(&meta.last_log_id)}),
+                                             "corrupt": corrupt, "sender_current_is_built": sender_matches,
+                                             "snap_last": log_id_json(&meta.last_log_id)}),
                         };
                     }
                 }
